@@ -84,6 +84,8 @@ func (t *TypeExpr) String() string {
 		return "[]" + t.Elem.String()
 	case "map":
 		return "map[" + t.Key.String() + "]" + t.Elem.String()
+	case "emptystruct":
+		return "struct{}"
 	}
 	if t.Pkg != "" {
 		return t.Pkg + "." + t.Name
@@ -328,6 +330,11 @@ func (p *parser) typeExpr() *TypeExpr {
 	t := p.next()
 	if t.kind != "ident" {
 		p.fail("type expected, got %q", t.text)
+	}
+	if t.text == "struct" && p.isOp("{") {
+		p.next()
+		p.expectOp("}")
+		return &TypeExpr{Kind: "emptystruct"}
 	}
 	if p.isOp(".") {
 		p.next()
